@@ -198,7 +198,19 @@ def edited_leg(ctx, rng, uni, valid_strings, quick):
     # outside this leg: prefix routes and mixtures (':', '%', '/'), blanks inside [..] or {..} tags and a leading blank
     # (the documentation is silent about them), and unit-like lower-case runs after a number (mixture quantities)
     silent = re.compile(r"[\[{][^\]}]*\s|\s[\]}]|^\s|\s$|[0-9.]\s*(?:[numkc]?[gLm]|[num]L)\b")
-    strs = sorted(x for x in strs if ":" not in x and "%" not in x and "/" not in x and not silent.search(x))
+    def blanks_settled(x):
+        # every blank must sit where the documentation speaks about it: between the end of a group
+        # (letter, digit, '.', ')', ']', '}', '+') and the start of the next one (capital, digit, '.', '(', '+')
+        for m in re.finditer(r"\s+", x):
+            if m.start() == 0 or m.end() == len(x):
+                return False
+            if x[m.start() - 1] not in "ABCDEFGHIJKLMNOPQRSTUVWXYZabcdefghijklmnopqrstuvwxyz0123456789.)]}+" \
+                    or x[m.end()] not in "ABCDEFGHIJKLMNOPQRSTUVWXYZ0123456789.(+":
+                return False
+            if "@" in x[:m.start()]:
+                return False          # nothing is said about blanks after the density tag
+        return True
+    strs = sorted(x for x in strs if ":" not in x and "%" not in x and "/" not in x and not silent.search(x) and blanks_settled(x))
     items = [{"id": "e%d" % i, "s": s} for i, s in enumerate(strs)]
     outs = forkrun.map_fresh("ptv.formexec", "observe_parse", [{"items": items[i::32]} for i in range(32)])
     events = []
